@@ -144,6 +144,10 @@ pub struct EvalPlan {
     /// land on a job that actually runs, whatever the engine decides to run
     #[serde(default)]
     pub fail_started: BTreeMap<u32, Leave>,
+    /// every Ephemeral that is re-executed although its inputs are unchanged (started in state
+    /// Running(Validated)) fails: a failure that arrives late, after jobs were already skipped
+    #[serde(default)]
+    pub fail_validated_eph: Option<Leave>,
     pub abort: Option<AbortPlan>,
     pub contract: BTreeMap<usize, ContractMode>,
     pub misuse: Vec<MisusePlan>,
@@ -159,18 +163,20 @@ impl EvalPlan {
             decl_seed,
             fail: BTreeMap::new(),
             fail_started: BTreeMap::new(),
+            fail_validated_eph: None,
             abort: None,
             contract: BTreeMap::new(),
             misuse: Vec::new(),
         }
     }
     pub fn fault_free(&self) -> bool {
-        self.fail.is_empty() && self.fail_started.is_empty() && self.abort.is_none() && self.contract.is_empty()
+        self.fail.is_empty() && self.fail_started.is_empty() && self.fail_validated_eph.is_none() && self.abort.is_none() && self.contract.is_empty()
     }
     pub fn without_faults(&self) -> EvalPlan {
         let mut p = self.clone();
         p.fail.clear();
         p.fail_started.clear();
+        p.fail_validated_eph = None;
         p.abort = None;
         p.contract.clear();
         p.misuse.clear();
